@@ -1177,6 +1177,12 @@ class Executor:
                     bound[n] = v if (isinstance(t, SV) or v.ty.kind == "func") else coerce(v, t)
         a = Args(bound)
         h = HeapView(st.heap.copy(), st.held)
+        cc = self.cur_contract
+        if cc is not None and self.depth == 0 and getattr(cc, "at_call", None) and c.target in cc.at_call:
+            # publication order: what the contract of the function under check demands to hold at the moment it makes this call
+            # (other threads observe the effect of the call - an event being set, an item being queued - before the function returns)
+            for label, f in cc.at_call[c.target](Args(self.inputs), HeapView(self.cur_old) if self.cur_old is not None else h, a, h):
+                self.oblige(st, "order", f"{c.qualname}:{label}", f, note=f"call at line {getattr(node, 'lineno', '?')}")
         for n, f in getattr(self, "_dyn_checks", []):
             self.oblige(st, "pre", f"{c.qualname}:argument-{n}-has-declared-type", f, note=f"call at line {getattr(node, 'lineno', '?')}")
         self._dyn_checks = []
